@@ -61,6 +61,7 @@ type Contract struct {
 	Requires []Clause
 	Ensures  []Clause
 	BoundReq []Clause
+	InAssumed []Clause // input well-formedness assumed for the body, not checked at call sites (listed)
 	Assumed  []Clause
 	Assigns  []string
 	HasFrame bool
@@ -213,6 +214,10 @@ func (eng *Engine) loadContractFile(root, path string) error {
 		case "boundrequires":
 			// the stated bound of a bounded (unrolled) proof: assumed for the body, no obligation for callers
 			cur.BoundReq = append(cur.BoundReq, parseClause(rest, path, ln.n))
+		case "inputassumed":
+			// well-formedness of external input (e.g. metadata decoded from disk): assumed for the body, NOT an
+			// obligation at call sites; every use is listed as an assumption
+			cur.InAssumed = append(cur.InAssumed, parseClause(rest, path, ln.n))
 		case "ensures":
 			cur.Ensures = append(cur.Ensures, parseClause(rest, path, ln.n))
 		case "assumed":
@@ -457,6 +462,9 @@ func rewriteArrows(s string) string {
 				inner := s[i+1 : j]
 				// split call arguments at top-level commas
 				parts := splitTop(inner, ',')
+				if t := strings.TrimSpace(inner); strings.HasPrefix(t, "forall ") || strings.HasPrefix(t, "exists ") {
+					parts = []string{inner} // a parenthesised quantifier: its variable list may contain commas
+				}
 				for k, p := range parts {
 					parts[k] = rewriteArrows(p)
 				}
@@ -569,6 +577,29 @@ func (eng *Engine) resolveTypeString(s string, pkg *types.Package) types.Type {
 	key := pkg.Path() + "|" + s
 	if t, ok := eng.typeCache[key]; ok {
 		return t
+	}
+	// composite types over package-qualified names: resolve the parts (types.Eval has no file scope for imports)
+	if strings.Contains(s, ".") {
+		switch {
+		case strings.HasPrefix(s, "map["):
+			d := 0
+			for i := 3; i < len(s); i++ {
+				if s[i] == '[' {
+					d++
+				} else if s[i] == ']' {
+					d--
+					if d == 0 {
+						t := types.NewMap(eng.resolveTypeString(s[4:i], pkg), eng.resolveTypeString(s[i+1:], pkg))
+						eng.typeCache[key] = t
+						return t
+					}
+				}
+			}
+		case strings.HasPrefix(s, "[]") && strings.Contains(s, "map["):
+			t := types.NewSlice(eng.resolveTypeString(s[2:], pkg))
+			eng.typeCache[key] = t
+			return t
+		}
 	}
 	tv, err := types.Eval(eng.fset, pkg, token.NoPos, s)
 	if err != nil {
